@@ -42,7 +42,36 @@ DERIVATIONS = {
     "mkey": ("key_path_prefix",),
     "qid": ("with_dimension",),
     "other": ("resolve", "key_mapping", "key_path_prefix", "inverse"),
+    "tableau": ("tableau_apply",),
 }
+IN_PLACE_DERIVATIONS = ("tableau_apply",)       # the held object itself is updated
+
+# Violations of the unmodified tree that are reported to the coordinator but not yet repaired or recorded: their
+# oracles run, a hit is counted as probe "pending:<fingerprint>" and ends the run quietly instead of raising.
+# Matching is by fingerprint prefix.  VERIF_C11_SHOW_PENDING=1 turns them back into violations.
+PENDING: tuple = (
+    # CliffordTableau caches its hash although apply_x/h/z/cx update it in place
+    "C11-DERIVED:derive:tableau_apply",
+    # hash depends on the order a dict was written in, == does not
+    "C11-HASH:twin:cirq.ProductState", "C11-HASH:twin:cirq._MeasurementSpec",
+    # LinearDict with tuple keys is written but cannot be read (keys come back as lists)
+    "C11-SUT-EXCEPTION:json:TypeError@cirq-core/cirq/value/linear_dict.py:_from_json_dict_",
+    # FrozenCircuit / CircuitOperation holding an unhashable operation (KrausChannel, MixedUnitaryChannel)
+    # cannot be written: the encoder memo hashes every SerializableByKey
+    "C11-SUT-EXCEPTION:json:TypeError@cirq-core/cirq/value/value_equality_attr.py:_value_equality_hash:unhashable-type",
+    # MatrixGate built with unitary_check=False (or loosened tolerances) is re-validated on read
+    "C11-SUT-EXCEPTION:json:ValueError@cirq-core/cirq/ops/matrix_gates.py:__init__",
+    "C11-SUT-EXCEPTION:repr:ValueError@cirq-core/cirq/ops/matrix_gates.py:__init__",
+    # boolean options lost by JSON (and ignored by == / repr)
+    "C11-PAYLOAD:json:<cirq.ConstantQubitNoiseModel>#_prepend",
+    "C11-PAYLOAD:json:<cirq.CZTargetGateset>#_preserve_moment_structure",
+    "C11-PAYLOAD:json:<cirq.CZTargetGateset>#_reorder_operations",
+    # repr of a result with zero repetitions loses the array shape
+    "C11-REPR:repr:cirq.ResultDict.records",
+    # reprs that name a module attribute which does not exist
+    "C11-SUT-EXCEPTION:repr:AttributeError@outside-the-tree:module-has-no:cirq.ZipLongest",
+    "C11-SUT-EXCEPTION:repr:AttributeError@outside-the-tree:module-has-no:cirq.BayesianNetworkGate",
+)
 RECIPE_SOURCE_WEIGHTS = ((6, 1, 1), (4, 2, 3), (2, 2, 5))     # generated / stored example / mutated stored example
 
 
@@ -152,6 +181,10 @@ class _Run:
         # encoder): then the class of the value is what tells one defect from another
         generic = any(g in site for g in ("value/value_equality_attr.py", "cirq/_compat.py",
                                           "protocols/json_serialization.py", "outside-the-tree"))
+        if generic:
+            import re as _re
+            words = _re.sub(r"'[^']*'|\"[^\"]*\"", "", f["exc_msg"]).split()[:3]
+            site = site + ":" + "-".join(_re.sub(r"[^A-Za-z]", "", w) for w in words)
         v = Violation(cls, f"{what} on node {node.idx} (PYTHONHASHSEED={node.seed}): {op} raised "
                       f"{f['exc_type']}: {f['exc_msg']}{hist} at {site}" + (f"; value of type {vtype}" if vtype else ""),
                       fingerprint=f"{cls}:{fam}:{f['exc_type']}@{site}" + (f":{vtype}" if (vtype and generic) else ""))
@@ -322,6 +355,8 @@ class _Run:
             where = pv["where"] or ""
             import re as _re
             place = _re.sub(r"\[\d+\]|\{\d+\}", "", where)        # <Type>.field without positions
+            if "<" in place:
+                place = place[place.rindex("<"):]                  # the innermost object and its field / flag
             raise Violation(f"{P}-PAYLOAD", f"{detail}: numpy/pandas payload differs at {where}: {pv['detail']}; "
                             f"value {label}", fingerprint=f"{P}-PAYLOAD:{what}:{place or vtype}")
 
@@ -372,6 +407,8 @@ class _Run:
             return [["a", ["f", 1, 2]], ["b", ["f", 1, 4]], ["theta", ["i", 1]], ["n", ["i", 2]]]
         if method == "with_dimension":
             return [t.pick((3, 2, 4), "derive.dimension")]
+        if method == "tableau_apply":
+            return [t.pick(("x", "h", "z", "cx"), "derive.tableau-gate"), t.draw(3, "derive.tableau-axis")]
         if method == "with_operation":
             return [t.pick(("x", "measure", "controlled", "feedforward"), "derive.operation")]
         if method == "with_classical_controls":
@@ -437,7 +474,54 @@ class _Run:
         self.recipes.append(rec)
         node.held[new_slot] = _Held(len(self.recipes) - 1, "derive", h.hops, h.procs, hash_cached=True,
                                     family=resp["family"])
+        if method in IN_PLACE_DERIVATIONS:
+            # the source slot holds the very same, now updated, object: it no longer is what its recipe says
+            ctx.probe("derive-in-place-after-hash" if h.hash_cached else "derive-in-place")
+            self.call(node, {"op": "drop", "slot": slot}, "drop")
+            node.held.pop(slot, None)
         return new_slot
+
+    def op_twin(self, node: Optional[_LNode] = None, rid: Optional[int] = None) -> None:
+        """The same value spelled differently (1 / 1.0, 0.0 / -0.0, another array dtype, a dict literal in the
+        other order): if the two are ==, they must hash alike and find each other [C11-HASH]."""
+        from checks import c11_gen
+        t, ctx = self.t, self.ctx
+        if node is None:
+            node = self.pick_node("twin.node")
+        if rid is None:
+            cands = [i for i, r in enumerate(self.recipes) if not r.get("rejected") and r["kind"] != "derived"]
+            if not cands:
+                return
+            rid = cands[len(cands) - 1 - t.draw(len(cands), "twin.recipe")]
+        rec = self.recipes[rid]
+        r = rec["recipe"]
+        if r[0] in ("corpus", "mutrepr"):
+            text = self.check.corpus_text[(r[1], r[2])] if r[0] == "corpus" else r[3]
+            other, how = c11_gen.mutate_repr(t, text, mode="storage")
+            twin = None if other is None else ["mutrepr", r[1], r[2], other]
+        else:
+            twin, how = c11_gen.storage_variant(t, r)
+        if twin is None:
+            return
+        ctx.decide("twin", node.idx, rec["label"], how)
+        resp = self.call(node, {"op": "twin", "recipe_a": r, "recipe_b": twin}, "twin", vtype=rec.get("type"))
+        if resp["rejected"]:
+            ctx.event("twin-rejected", resp["why"].split(":")[0])
+            ctx.probe("twin-rejected")
+            return
+        ctx.event("twin", resp["eq"], resp["hash_eq"], resp["lookup"], resp["hashable"])
+        if resp["eq"]:
+            ctx.probe("twin-equal-respelling")
+            if resp["hashable"]:
+                ctx.probe("twin-hash-compared")
+        if not resp["hash_eq"]:
+            raise Violation(f"{P}-HASH", f"node {node.idx} (PYTHONHASHSEED={node.seed}): two spellings of one value "
+                            f"({how}) are == but hash differently (component {resp['where']}); value {rec['label']}",
+                            fingerprint=f"{P}-HASH:twin:{resp['where']}")
+        if not resp["lookup"]:
+            raise Violation(f"{P}-HASH", f"node {node.idx}: two spellings of one value ({how}) are == and hash alike "
+                            f"but do not find each other in a dict ({resp['where']}); value {rec['label']}",
+                            fingerprint=f"{P}-HASH:twin:lookup:{resp['where']}")
 
     def op_export(self) -> None:
         node = self.pick_node("export.node", lambda n: n.held)
@@ -579,6 +663,11 @@ class _Run:
                             f"equal but hash differently (component {where}): {self.label(node.held[a].rid)} via "
                             f"{node.held[a].via} and {self.label(node.held[b].rid)} via {node.held[b].via}",
                             fingerprint=f"{P}-HASH:report:{where}")
+        if resp.get("eq_raises"):
+            a, b, tname, exc = resp["eq_raises"][0]
+            raise Violation(f"{P}-SUT-EXCEPTION", f"node {node.idx}: == between two held values of class {tname} "
+                            f"raises {exc} ({self.label(node.held[a].rid)} vs {self.label(node.held[b].rid)})",
+                            fingerprint=f"{P}-SUT-EXCEPTION:eq-between-held:{exc}:{tname}")
         if resp["bad_lookup"]:
             a, b, where = resp["bad_lookup"][0]
             raise Violation(f"{P}-HASH", f"node {node.idx}: equal held values do not find each other in a dict "
@@ -689,7 +778,7 @@ class _Run:
 
     # -- the run ---------------------------------------------------------------------------------------
     KINDS = ("build", "touch", "export", "import", "copy", "report", "corpus", "sort", "drop-node", "restart",
-             "derive")
+             "derive", "twin")
 
     def step(self) -> None:
         any_held = any(n.held for n in self.nodes)
@@ -706,6 +795,7 @@ class _Run:
             "drop-node": 1 if any_held else 0,
             "restart": 3 if self.restarts_left > 0 and self.messages else 0,
             "derive": 5 if any(h.family in DERIVATIONS for n in self.nodes for h in n.held.values()) else 0,
+            "twin": 2 if self.recipes else 0,
         }
         kind = self.KINDS[self.t.weighted([w[k] for k in self.KINDS], "op")]
         self.ctx.steps += 1
@@ -732,6 +822,9 @@ class _Run:
             self.ctx.steps += 1
             if slot is None:
                 continue
+            if t.chance(1, 3, "sweep.twin"):
+                self.op_twin(node, rid)
+                self.ctx.steps += 1
             if t.chance(1, 3, "sweep.touch"):
                 self.op_touch(node, slot)
             subjects = [slot]
@@ -887,6 +980,10 @@ class C11(Check):
         try:
             run.go()
         except Violation as v:
+            if any(v.fingerprint.startswith(p) for p in PENDING) and not os.environ.get("VERIF_C11_SHOW_PENDING"):
+                ctx.event("pending", v.fingerprint)
+                ctx.probe("pending:" + v.fingerprint)
+                return
             if v.fingerprint in self._known:
                 # Recorded findings share violation classes with new ones (C11-NEQ, C11-REPR, ...).  The
                 # runner minimises a tape while "the same class" is still reached; giving recorded
